@@ -18,6 +18,7 @@ EXPLANATION = (
     'containers the found() test precedes the level-0 CAS in every retry, the maximum height is raised by CAS, the size is '
     'incremented only after linking and a rejected node is deleted.  Traversal completeness, comparator order of iteration and '
     'linearizability are NOT decided.')
+EXPLANATION += ' Added after the seeded-change rounds: ' + 'D4: after internal_insert / internal_insert_node the rejected node is disposed of at most once on every path.'
 ASSUMPTIONS = ['instantiations: unordered/ordered map, multimap, set, multiset over int (explicit instantiation)']
 ND = ['traversal completeness under concurrent inserts', 'comparator order of iteration', 'linearizability']
 UB = None
